@@ -1,7 +1,7 @@
 HARNESSES += C08_trj C08_tab
 # pdbreader/lammpsdumpreader are compiled INTO the harness with assertions on (-UNDEBUG) so that an
 # out-of-range Topology::getBead (boost deque BOOST_ASSERT) aborts deterministically instead of being silent UB
-C08_trj_SRCS  := csg/src/libcsg/modules/io/pdbreader.cc csg/src/libcsg/modules/io/lammpsdumpreader.cc
+C08_trj_SRCS  := csg/src/libcsg/modules/io/pdbreader.cc csg/src/libcsg/modules/io/lammpsdumpreader.cc csg/src/libcsg/modules/io/lammpsdatareader.cc
 C08_trj_FLAGS := -include stdexcept -UNDEBUG
 C08_trj_LIBS  := $(LIBCSG) $(LIBTOOLS)
 C08_trj_DEPS  := $(CSGSO) $(TOOLSSO)
